@@ -7,8 +7,7 @@ Open Scope N_scope.
 
 Lemma spec_code_localhost n : spec_localhost n = true -> code_localhost n = true.
 Proof.
-  destruct n as [|c r]; cbn; [discriminate|].
-  intros H; apply andb_true_iff in H; tauto.
+  intros H; exact H.
 Qed.
 
 Lemma c09_out_ok_intro fs f k n hop tok g :
@@ -69,14 +68,6 @@ Proof.
       intros Hin; apply (send_all_ok fs tidv now inface nonce life n hop [hh] e); rewrite S; exact Hin.
 Qed.
 
-Lemma nhf_out_ok fs nh n hop tok o : In o (nhf_out fs nh n hop tok) -> c09_out_ok fs o = true.
-Proof.
-  unfold nhf_out. destruct (get_face fs nh) as [g|] eqn:Hg; [|intros []].
-  destruct (negb (f_local g) && code_localhost n) eqn:B; [intros []|].
-  intros [<-|[]]. apply (c09_out_ok_intro _ _ _ _ _ _ g Hg).
-  intros L; rewrite L in B; exact B.
-Qed.
-
 Lemma step_interest_ok s now i ch o : In o (r_outs (step_interest s now i ch)) -> c09_out_ok (faces s) o = true.
 Proof.
   unfold step_interest.
@@ -92,7 +83,11 @@ Proof.
   destruct hit as [c|].
   - cbn; apply send_data_ok.
   - destruct (i_nhf i) as [nh|].
-    + cbn; apply nhf_out_ok.
+    + destruct (send_all _ _ _ _ _ _ _ _ _ _) as [e3 os] eqn:S.
+      cbn; intros Hin.
+      match type of S with send_all ?a ?b ?c ?d ?e ?f ?g ?h ?i ?j = _ =>
+        apply (send_all_ok a b c d e f g h i j) end.
+      rewrite S; exact Hin.
     + destruct (strategy_interest _ _ _ _ _ _ _ _ _ _ _ _) as [[e3 os] tie_ok] eqn:S.
       cbn; intros Hin.
       match type of S with strategy_interest ?a ?b ?c ?d ?e ?f ?g ?h ?i ?j ?k ?l = _ =>
@@ -127,7 +122,7 @@ Proof.
   - apply step_interest_ok.
   - unfold step_data. destruct (data_token (d_tok d)) as [[th tk]|].
     + destruct (th =? nthreads s); [intros []|]. destruct (th =? tid s); [apply step_data_thread_ok|intros []].
-    + destruct (dispatched_nontoken s d); [apply step_data_thread_ok|intros []].
+    + apply step_data_thread_ok.
   - unfold step_tick. destruct (pop_chosen _ _ _ _ _) as [pd ok]; intros [].
   - destruct n; intros [].
 Qed.
@@ -170,14 +165,14 @@ Proof.
   { intros t; unfold step_data_thread; rewrite Hg, L, (spec_code_localhost _ S); cbn; split; reflexivity. }
   destruct (data_token (d_tok d)) as [[th tk]|].
   - destruct (th =? nthreads s); [split; reflexivity|]. destruct (th =? tid s); [apply T|split; reflexivity].
-  - destruct (dispatched_nontoken s d); [apply T|split; reflexivity].
+  - apply T.
 Qed.
 
 (* local faces are unaffected by the scope rules *)
 Lemma c09_local_interest_not_scope_dropped s now i ch g :
   get_face (faces s) (i_face i) = Some g -> f_local g = true -> r_disp (step s (EInterest now i) ch) <> DropScope.
 Proof.
-  intros Hg L; cbn [step]; unfold step_interest; rewrite Hg, L; cbn.
+  intros Hg L; cbn [step]; unfold step_interest; rewrite Hg, L; cbn [negb andb].
   destruct (match i_hop i with Some 0 => true | _ => false end); [discriminate|].
   destruct (i_nonce i) as [nonce|]; [|discriminate].
   destruct (dnl_has (dnl s) (i_name i) nonce); [discriminate|].
@@ -186,7 +181,7 @@ Proof.
   destruct (insert_inrec now (i_face i) nonce (i_life i) (i_tok i) e0) as [[e1 pending] prev].
   destruct (cs_stage s now i g pending ch) as [[hit lru'] cs_ok].
   destruct hit; [discriminate|].
-  destruct (i_nhf i); [discriminate|].
+  destruct (i_nhf i); [destruct (send_all _ _ _ _ _ _ _ _ _ _); discriminate|].
   destruct (strategy_interest _ _ _ _ _ _ _ _ _ _ _ _) as [[e3 os] tie_ok].
   discriminate.
 Qed.
